@@ -61,12 +61,17 @@ func runC09(r *Run) {
 			// classify: under `MediaType == accept`, under accept == "" (default), or header empty (first)
 			okEq := false
 			for _, br := range branchesIn(ff) {
-				if br.Info.Op != token.EQL || br.Info.Other == nil {
+				if br.Info.Other == nil {
+					continue
+				}
+				eqSlot, isEq := br.slotFor(token.EQL) // `==` taken, or `!=` not taken
+				if !isEq {
 					continue
 				}
 				a, b := br.Info.Root, br.Info.Other
 				if (loadOfField(a, "ResFmt.MediaType") && b == acc[0].Value()) || (loadOfField(b, "ResFmt.MediaType") && a == acc[0].Value()) {
-					if dom(br.If.Block().Succs[br.slotWhenRel(true)], c.Block()) {
+					tgt := br.If.Block().Succs[eqSlot]
+					if len(tgt.Preds) == 1 && dom(tgt, c.Block()) {
 						okEq = true
 					}
 				}
@@ -148,20 +153,38 @@ func runC09(r *Run) {
 		}
 		r.need(tBlock != nil && fBlock != nil, "lo = mid+1 / hi = mid-1 arms")
 		keys := []string{"acceptedType.quality", "acceptedType.specificity", "len(acceptedType.params)", "acceptedType.order"}
-		keyOf := func(v ssa.Value) (key int, side int) { // side: 0 = element i, 1 = element mid
+		// sideOf: which element a base pointer denotes: 0 = element i, 1 = element mid, -1 unknown.
+		type sideFn func(base ssa.Value) int
+		callerSide := func(base ssa.Value) int {
+			ia, ok := base.(*ssa.IndexAddr)
+			if !ok {
+				return -1
+			}
+			if ia.Index == mid {
+				return 1
+			}
+			return 0
+		}
+		keyOf := func(v ssa.Value, side sideFn) (key int, sd int) {
 			name := ""
 			var base ssa.Value
 			v = stripValue(v)
 			if c, ok := v.(*ssa.Call); ok && calleeName(&c.Call) == "builtin:len" {
 				inner := stripValue(c.Call.Args[0])
 				if fv := fieldOfValue(inner); fv != nil {
-					name = "len(" + fieldOwner(fv) + "." + fv.Name() + ")"
-					base = inner.(*ssa.UnOp).X.(*ssa.FieldAddr).X
+					if u, ok := inner.(*ssa.UnOp); ok {
+						if fa, ok := u.X.(*ssa.FieldAddr); ok {
+							name = "len(" + fieldOwner(fv) + "." + fv.Name() + ")"
+							base = fa.X
+						}
+					}
 				}
 			} else if fv := fieldOfValue(v); fv != nil {
 				if u, ok := v.(*ssa.UnOp); ok {
-					name = fieldOwner(fv) + "." + fv.Name()
-					base = u.X.(*ssa.FieldAddr).X
+					if fa, ok := u.X.(*ssa.FieldAddr); ok {
+						name = fieldOwner(fv) + "." + fv.Name()
+						base = fa.X
+					}
 				}
 			}
 			key = -1
@@ -170,17 +193,111 @@ func runC09(r *Run) {
 					key = i
 				}
 			}
-			ia, ok := base.(*ssa.IndexAddr)
-			if !ok {
+			if base == nil {
 				return -1, -1
 			}
-			if ia.Index == mid {
-				return key, 1
+			return key, side(base)
+		}
+		// evalCond evaluates a boolean value under the sign vector; prev is the block control came from (for phis).
+		var evalFn func(fn *ssa.Function, signs [4]int, side sideFn, depth int) (bool, string)
+		var evalCond func(v ssa.Value, prev *ssa.BasicBlock, signs [4]int, side sideFn, depth int) (bool, string)
+		evalCond = func(v ssa.Value, prev *ssa.BasicBlock, signs [4]int, side sideFn, depth int) (bool, string) {
+			if bv, ok := constBool(asConst(v)); ok {
+				return bv, ""
 			}
-			return key, 0
+			if u, ok := v.(*ssa.UnOp); ok && u.Op == token.NOT {
+				x, why := evalCond(u.X, prev, signs, side, depth)
+				return !x, why
+			}
+			if ph, ok := v.(*ssa.Phi); ok {
+				for i, p := range ph.Block().Preds {
+					if p == prev {
+						return evalCond(ph.Edges[i], nil, signs, side, depth)
+					}
+				}
+				return false, "phi without a known predecessor"
+			}
+			if c, ok := v.(*ssa.Call); ok {
+				g := transparentCallee(c.Parent(), c)
+				if g == nil || depth > 2 {
+					return false, "condition calls an opaque function"
+				}
+				// the helper's parameters denote the elements its arguments denote
+				inner := func(base ssa.Value) int {
+					if p, ok := base.(*ssa.Parameter); ok {
+						for i, gp := range g.Params {
+							if gp == p && i < len(c.Call.Args) {
+								return side(c.Call.Args[i])
+							}
+						}
+					}
+					return -1
+				}
+				return evalFn(g, signs, inner, depth+1)
+			}
+			bo, ok := v.(*ssa.BinOp)
+			if !ok {
+				return false, "condition is not a comparison of two keys"
+			}
+			ka, sa := keyOf(bo.X, side)
+			kb, sb := keyOf(bo.Y, side)
+			if ka < 0 || ka != kb || sa == sb || sa < 0 || sb < 0 {
+				return false, "operands are not the same key of element i and element mid"
+			}
+			sign := signs[ka] // sign of key_i - key_mid
+			if sa == 1 {      // X is mid: X-Y = -(i-mid)
+				sign = -sign
+			}
+			switch bo.Op {
+			case token.LSS:
+				return sign < 0, ""
+			case token.LEQ:
+				return sign <= 0, ""
+			case token.GTR:
+				return sign > 0, ""
+			case token.GEQ:
+				return sign >= 0, ""
+			case token.EQL:
+				return sign == 0, ""
+			case token.NEQ:
+				return sign != 0, ""
+			}
+			return false, "arithmetic on keys"
+		}
+		// evalFn runs a boolean helper to its Return under the sign vector
+		evalFn = func(fn *ssa.Function, signs [4]int, side sideFn, depth int) (bool, string) {
+			b := fn.Blocks[0]
+			var prev *ssa.BasicBlock
+			for steps := 0; steps < 64; steps++ {
+				switch t := b.Instrs[len(b.Instrs)-1].(type) {
+				case *ssa.Return:
+					if len(t.Results) != 1 {
+						return false, "helper does not return one boolean"
+					}
+					return evalCond(retOperand(t, 0), prev, signs, side, depth)
+				case *ssa.If:
+					x, why := evalCond(t.Cond, prev, signs, side, depth)
+					if why != "" {
+						return false, why
+					}
+					prev = b
+					if x {
+						b = b.Succs[0]
+					} else {
+						b = b.Succs[1]
+					}
+				case *ssa.Jump:
+					prev = b
+					b = b.Succs[0]
+				default:
+					return false, "unexpected block shape in helper"
+				}
+			}
+			return false, "helper did not return"
 		}
 		eval := func(signs [4]int) (result int, why string) { // 1 = true arm, 0 = false arm, -1 undecided
 			b := start
+			var prev *ssa.BasicBlock
 			for steps := 0; steps < 64; steps++ {
 				if b == tBlock {
 					return 1, ""
@@ -191,42 +308,18 @@ func runC09(r *Run) {
 				iff, ok := b.Instrs[len(b.Instrs)-1].(*ssa.If)
 				if !ok {
 					if len(b.Succs) == 1 {
+						prev = b
 						b = b.Succs[0]
 						continue
 					}
 					return -1, "unexpected block shape"
 				}
-				ci := decompose(iff.Cond)
-				if ci.Other == nil {
-					return -1, "condition is not a comparison of two keys"
+				x, why := evalCond(iff.Cond, prev, signs, callerSide, 0)
+				if why != "" {
+					return -1, why
 				}
-				ka, sa := keyOf(ci.Root)
-				kb, sb := keyOf(ci.Other)
-				if ka < 0 || ka != kb || sa == sb || sa < 0 || sb < 0 {
-					return -1, "operands are not the same key of element i and element mid"
-				}
-				sign := signs[ka] // sign of key_i - key_mid
-				if sa == 1 {      // Root is mid: Root-Other = -(i-mid)
-					sign = -sign
-				}
-				var rel bool
-				switch ci.Op {
-				case token.LSS:
-					rel = sign < 0
-				case token.LEQ:
-					rel = sign <= 0
-				case token.GTR:
-					rel = sign > 0
-				case token.GEQ:
-					rel = sign >= 0
-				case token.EQL:
-					rel = sign == 0
-				case token.NEQ:
-					rel = sign != 0
-				default:
-					return -1, "arithmetic on keys"
-				}
-				if rel != ci.Neg {
+				prev = b
+				if x {
 					b = b.Succs[0]
 				} else {
 					b = b.Succs[1]
